@@ -115,7 +115,7 @@ func genReplayTest(pkg *ssa.Package) string {
 	return sb.String()
 }
 
-var resultRe = regexp.MustCompile(`^VERIF-RESULT id=(\S+) outcome=(\S+) failed=(\S+) reached=(.*)$`)
+var resultRe = regexp.MustCompile(`^VERIF-RESULT id=(\S+) outcome=(\S+) failed=(.*?) reached=(.*)$`)
 var panicRe = regexp.MustCompile(`^VERIF-PANIC id=(\S+) (.*)$`)
 
 // nativeReplay runs the cases against the natively compiled /repo tree.
